@@ -18,12 +18,15 @@ targets, all event levels ERROR..TRACE, every iteration order of the hash maps):
   appenders does not gate) and `C19_fails_F12c` (additive logger without appenders does not lift
   the gate of a less specific non-additive logger — so "every non-additive logger names an
   appender" is not a sufficient hypothesis).
+* `C19_route_eq_codeSpec` — the exact (unconditional) description of what the code routes;
+  `C19_route_order_independent` — hash-map iteration order does not matter.
 * `C19_prefilters_never_reject` — `event_enabled`, the `max_level` hint and `log::max_level()`
   never reject an event `route` would deliver; `C19_log_tracing_same` — both entry points deliver
   exactly `route cfg (target, level)`.
 * `C19_exactly_once` — no appender occurs twice in the delivery list.
 Pipeline (every step sequence of emitters, consumer and shutdown, any capacity):
-* `C19_fifo`, `C19_per_thread_order`, `C19_block_never_drops`, `C19_drop_never_blocks`;
+* `C19_fifo`, `C19_per_thread_order`, `C19_delivered_exactly_once`, `C19_block_never_drops`,
+  `C19_drop_never_blocks`, `C19_disconnect_only_after_shutdown`;
 * `C19_no_loss_at_shutdown_partial` — if no emit is concurrent with shutdown, then once the
   consumer has exited / seen `Disconnected` it has taken exactly the accepted events;
   `C19_fails_F12b` — without that hypothesis the writer loses an accepted event.
@@ -65,6 +68,29 @@ example : RouteSpec exCfg { target := ['a', ':', ':', 'b', ':', ':', 'c'], level
 example : ¬ RouteSpec exCfg { target := ['a', ':', ':', 'b', ':', ':', 'c'], level := 2 } 0 := by decide
 -- `a::bc` is not under `a::b` (no `::` boundary): it falls to `a`
 example : route exCfg { target := ['a', ':', ':', 'b', 'c'], level := 3 } = [0, 1] := by decide
+
+/-- **What the code does, exactly** (no hypothesis on appender-less loggers): `route` selects `a`
+iff `a`'s most specific logger admits the level and the most specific matching logger *among those
+that name at least one appender* — the only ones `process_event` can see — does not gate it. The
+difference to `RouteSpec` is precisely the words "among those that name at least one appender". -/
+theorem C19_route_eq_codeSpec (cfg : Config) (wf : cfg.WF) (ev : Event) (hev : 0 < ev.level) (a : Appender) :
+    a ∈ route cfg ev ↔ CodeSpec cfg ev a :=
+  mem_route_iff_codeSpec wf hev a
+
+/-- **Hash-map iteration order is irrelevant**: two configurations with the same appender set,
+logger set and root (in any list order) route every event identically. (The differential feeds
+the model declaration order while the implementation iterates `HashMap`s.) -/
+theorem C19_route_order_independent (cfg cfg' : Config) (wf : cfg.WF) (wf' : cfg'.WF)
+    (happ : ∀ x, x ∈ cfg'.appenders ↔ x ∈ cfg.appenders)
+    (hlog : ∀ l, l ∈ cfg'.loggers ↔ l ∈ cfg.loggers)
+    (hroot : cfg'.rootLevel = cfg.rootLevel ∧ ∀ x, x ∈ cfg'.rootAppenders ↔ x ∈ cfg.rootAppenders)
+    (ev : Event) (hev : 0 < ev.level) (a : Appender) :
+    a ∈ route cfg' ev ↔ a ∈ route cfg ev := by
+  rw [mem_route_iff_codeSpec wf' hev, mem_route_iff_codeSpec wf hev]
+  exact codeSpec_congr happ hlog hroot.1 hroot.2 ev a
+
+example : route { exCfg with appenders := [2, 0, 1], loggers := exCfg.loggers.reverse }
+    { target := ['a', ':', ':', 'x'], level := 3 } = [0, 1] := by decide
 
 /-- **F12a on the model.** root → appender 0; non-additive logger `q` names no appender. Target
 `q::i` at INFO: the property selects nobody, the code delivers to appender 0. Every non-additive
@@ -159,6 +185,38 @@ theorem C19_per_thread_order (cap : Nat) (pol : Overflow) (c : Consumer) (tr : L
   constructor
   · rw [← inv.fifo, ofThread_append]; exact List.prefix_append _ _
   · rw [← inv.order t]; exact List.prefix_append _ _
+
+/-- **Delivered exactly once**: the consumer never takes a message more often than it claimed a
+slot; in particular, if every emitted event is sent once (distinct `(thread, seq)`), the delivered
+sequence has no duplicates. -/
+theorem C19_delivered_exactly_once (cap : Nat) (pol : Overflow) (c : Consumer) (tr : List Step) (s : State)
+    (h : run (init cap pol c) tr = some s) :
+    (∀ m, s.out.count m ≤ s.claimed.count m) ∧ ((∀ m, s.claimed.count m ≤ 1) → s.out.Nodup) := by
+  have inv := inv_run (inv_init cap pol c) h
+  have hc := countInv_run (inv_init cap pol c) (countInv_init cap pol c) h
+  have h1 : ∀ m, s.out.count m ≤ s.claimed.count m := by
+    intro m
+    rw [← hc m, ← inv.fifo]
+    simp only [List.count_append]
+    omega
+  refine ⟨h1, fun hone => ?_⟩
+  rw [List.nodup_iff_count]
+  intro m
+  exact Nat.le_trans (h1 m) (hone m)
+
+/-- **Disconnect only after shutdown, and only when drained**: a consumer that has left its loop
+did so after the flag was set or the sender closed; a stream receiver that saw `Disconnected`
+saw it on an empty, closed channel (what the step requires). -/
+theorem C19_disconnect_only_after_shutdown (cap : Nat) (pol : Overflow) (c : Consumer) (tr : List Step) (s : State)
+    (h : run (init cap pol c) tr = some s) (hleft : s.phase ≠ .running) :
+    s.flag = true ∨ s.closed = true :=
+  (inv_run (inv_init cap pol c) h).phase hleft
+
+example (s : State) (h : (seeDisconnected s).isSome = true) : s.closed = true ∧ s.buf = [] := by
+  unfold seeDisconnected at h
+  split at h
+  · rename_i hc; exact ⟨hc.2.1, hc.2.2⟩
+  · cases h
 
 /-- **Block never drops**: with the blocking overflow policy no event is discarded for lack of
 room (a sender waits instead). -/
